@@ -135,4 +135,14 @@ CHECKS["C18"] = {
             "(TLS/QUIC in all four combinations).",
     "note": TRUST + "Sets are replaced by a class whose iteration order is solver-chosen among identity, reversal and rotations; reader/writer/file system are stubs; models as in C01/C02.",
 }
+CHECKS["C12"] = {
+    "technique": "symbolic execution of dpkt_dsb.Reader on a block-level model of the pcapng file with symbolic block fields; tick scaling decided in a relative-error real-arithmetic model of the expression lifted from the source; main.run -l wiring; concrete container variants through the real program",
+    "text": "For both byte orders, EPB and PB, a foreign block of any type at every position and DSBs, with tick words, if_tsresol (all 256 "
+            "values) and if_tsoffset symbolic, z3 shows that the reader yields exactly the packet and DSB blocks in order with untouched "
+            "payloads, uses the classes and formats of the file's byte order and computes if_tsoffset + ticks / 10^k or 2^k; that an "
+            "instant which is a whole microsecond below 2^51 is written back as that microsecond for resolutions 10^-3, 10^-6, 10^-9, "
+            "2^-10, 2^-20; and that -l feeds dpkt.pcap.Reader's pairs through the same loop. The same capture is then exported from 12 "
+            "real container variants (incl. legacy pcap) and compared.",
+    "note": TRUST + "dpkt's struct-level block parsing (third-party) is replaced by a block-level model in the symbolic harness and exercised only concretely by the container variants; multiple sections/interfaces are outside the claim.",
+}
 NOT_APPLICABLE = {}
